@@ -6,6 +6,7 @@ package main
 
 import (
 	"context"
+	"crypto/sha256"
 	"fmt"
 	"math/rand"
 	"runtime"
@@ -13,6 +14,7 @@ import (
 	"sync/atomic"
 	"time"
 
+	"github.com/IBM/TSS/threshold"
 	tss "github.com/IBM/TSS/types"
 
 	"verifharness/cluster"
@@ -37,12 +39,12 @@ func jitterC(seed int64) func(simnet.Link) {
 }
 
 func unitC20crypto(e common.Env, p *common.Part) {
-	p.Rule = "race-detector build; BLS and PS key generation through real Loud/Silent schemes on the simulated network in concurrent mode (one dispatcher goroutine per link, micro-delays), staggered first calls; in the 'out-of-phase' scenarios one participant re-sends, right behind each of its transmissions and after a PRNG delay of 0..200 us, a broadcast-class protocol message (commitment / public key) it had sent in an earlier key generation on the same cluster, and duplicates its traffic; in the 'deadline-with-straggler' scenarios (directly wired, one dispatcher goroutine per link, everybody honest) one party's context ends after 5..20 ms while another party's share / commitment / key for it is handed over within 2 ms of that moment; repeated because reports vary per run; distinct key = (scheme, mode, scenario, repetition); non-trivial when >=2 dispatcher goroutines were active"
+	p.Rule = "race-detector build; BLS and PS key generation through real Loud/Silent schemes on the simulated network in concurrent mode (one dispatcher goroutine per link, micro-delays), staggered first calls; in the 'out-of-phase' scenarios one participant re-sends, right behind each of its transmissions and after a PRNG delay of 0..200 us, a broadcast-class protocol message (commitment / public key) it had sent in an earlier key generation on the same cluster, and duplicates its traffic; in the 'sign-with-out-of-phase-key-messages' scenarios two nodes sign after a key generation, the first to have registered the handlers of its signing session is held at a verif point there, the other signer's captured commitment / public-key messages of the key generation are delivered to it on the signing topic, and it is released without waiting for them; in the 'deadline-with-straggler' scenarios (directly wired, one dispatcher goroutine per link, everybody honest) one party's context ends after 5..20 ms while another party's share / commitment / key for it is handed over within 2 ms of that moment; repeated because reports vary per run; distinct key = (scheme, mode, scenario, repetition); non-trivial when >=2 dispatcher goroutines were active"
 	reps := e.Pick(10, 100)
 	idx := 0
 	for r := 0; r < reps; r++ {
 		for _, sch := range []scheme{{Name: "bls"}, {Name: "ps", MsgLen: 1}} {
-			for _, sc := range []string{"honest-loud", "honest-silent", "out-of-phase", "out-of-phase", "deadline-with-straggler", "deadline-with-straggler"} {
+			for _, sc := range []string{"honest-loud", "honest-silent", "out-of-phase", "out-of-phase", "deadline-with-straggler", "deadline-with-straggler", "sign-with-out-of-phase-key-messages"} {
 				idx++
 				if !e.Mine(idx) {
 					continue
@@ -191,6 +193,91 @@ func runC20crypto(sch scheme, sc string, rep int, rng *rand.Rand) (int, int) {
 		wg.Wait()
 	}
 	injected := int32(0)
+	if sc == "sign-with-out-of-phase-key-messages" {
+		// a key generation whose broadcast-class transmissions (commitments, public keys) are captured per node; then nodes 1 and 2
+		// sign. The first of them to have registered the handlers of its signing session is held right there (verif point), the
+		// captured key-generation messages of the OTHER signer are delivered to it on the signing topic (out-of-phase traffic of a
+		// misbehaving signer; with two signers a broadcast is handed over on receipt), and it is released without waiting for them.
+		var mu sync.Mutex
+		captured := map[uint16][][]byte{}
+		for _, u := range ids {
+			u := u
+			c.Net.SetInterceptor(u, func(nw *simnet.Net, src uint16, typ uint8, topic, data []byte, dsts []uint16) []simnet.Outgoing {
+				if typ == uint8(tss.MsgTypeMPC) && len(dsts) == 2 && len(data) > 30 {
+					mu.Lock()
+					captured[u] = append(captured[u], append([]byte{}, data...))
+					mu.Unlock()
+				}
+				var o []simnet.Outgoing
+				for _, d := range dsts {
+					o = append(o, simnet.Outgoing{Dst: d, Type: typ, Topic: topic, Data: data})
+				}
+				return o
+			})
+		}
+		outs := map[uint16][]byte{}
+		c1, cn1 := context.WithTimeout(context.Background(), 6*time.Second)
+		for _, u := range ids {
+			u := u
+			wg.Add(1)
+			go func() {
+				defer wg.Done()
+				out, err := c.Schemes[u].KeyGen(c1, n, 2)
+				if err == nil {
+					mu.Lock()
+					outs[u] = out
+					mu.Unlock()
+				}
+			}()
+		}
+		wg.Wait()
+		cn1()
+		if len(outs) < 3 {
+			return c.Net.LinkCount(), 0
+		}
+		for _, u := range ids {
+			c.Schemes[u].SetStoredData(outs[u])
+		}
+		var parked int32
+		release := make(chan struct{})
+		threshold.SetVerifHook(func(pt string) {
+			if pt == "sign.handlersRegistered" && atomic.CompareAndSwapInt32(&parked, 0, 1) {
+				<-release
+			}
+		})
+		defer threshold.SetVerifHook(func(string) {})
+		topic := fmt.Sprintf("c20-sign-%d", rep)
+		th := sha256.Sum256([]byte(topic))
+		c2, cn2 := context.WithTimeout(context.Background(), 600*time.Millisecond)
+		for _, u := range []uint16{1, 2} {
+			u := u
+			wg.Add(1)
+			go func() {
+				defer wg.Done()
+				c.Schemes[u].Sign(c2, []byte("request-or-digest-0123456789abcdef"), topic)
+			}()
+		}
+		deadline := time.Now().Add(400 * time.Millisecond)
+		for atomic.LoadInt32(&parked) == 0 && time.Now().Before(deadline) {
+			time.Sleep(100 * time.Microsecond)
+		}
+		if atomic.LoadInt32(&parked) == 1 {
+			mu.Lock()
+			for _, pr := range [][2]uint16{{1, 2}, {2, 1}} {
+				for _, msg := range captured[pr[0]] {
+					c.Net.Inject(pr[0], simnet.Outgoing{Dst: pr[1], Type: uint8(tss.MsgTypeMPC), Topic: th[:], Data: msg, Tag: "out-of-phase"})
+					atomic.AddInt32(&injected, 1)
+				}
+			}
+			mu.Unlock()
+			time.Sleep(3 * time.Millisecond)
+		}
+		close(release)
+		wg.Wait()
+		cn2()
+		time.Sleep(time.Millisecond)
+		return c.Net.LinkCount(), int(atomic.LoadInt32(&injected))
+	}
 	if sc == "out-of-phase" {
 		// session 1: honest, to capture node 3's broadcast-class transmissions (everything it sends to both peers at once)
 		var mu sync.Mutex
